@@ -200,7 +200,7 @@ theorem stepBody_blk (p : Prog) (s : St) (n pc : Nat) (below : List Frame) :
   | block name =>
     have hb : isBlock p n = true := by simp [isBlock, hk]
     unfold stepBody
-    simp only [hk, getRt_eq]
+    simp only [hk]
     split
     · -- pc 0
       split
@@ -215,9 +215,7 @@ theorem stepBody_blk (p : Prog) (s : St) (n pc : Nat) (below : List Frame) :
       · split
         · refine .acquire name hk rfl (by simp_all) (by assumption) ?_
           simp only [outState]
-          refine ⟨rfl, fun k => ?_⟩
-          simp only [rt_setRt, rt_emit]
-          exact ⟨rfl, rfl⟩
+          exact ⟨rfl, fun k => ⟨rfl, rfl⟩⟩
         · exact .same (BlkSame.rfl' _)
     · -- pc 3
       split
@@ -241,7 +239,7 @@ theorem stepBody_blk (p : Prog) (s : St) (n pc : Nat) (below : List Frame) :
     · exact .same (BlkSame.rfl' _)
   | alarm c =>
     unfold stepBody
-    simp only [hk, getRt_eq]
+    simp only [hk]
     split
     · apply BlkEffect.same; repeat' split
       all_goals (simp only [outState]; blk_same)
@@ -263,16 +261,18 @@ theorem stepBody_blk (p : Prog) (s : St) (n pc : Nat) (below : List Frame) :
           · apply BlkEffect.same; simp only [outState]; blk_same
           · simp only [outState]
             unfold callPrepare
-            simp only [getRt_eq]
-            split
-            · refine .recall name m hk rfl hm ?_
+            simp only []
+            by_cases hrs : (getRt s m).runStarted ≤ (getRt s m).runCompleted
+            · rw [if_pos hrs]
+              refine .recall name m hk rfl hm ?_
               blk_same
-            · exact .same (by blk_same)
+            · rw [if_neg hrs]
+              exact .same (by blk_same)
     · exact .same (BlkSame.rfl' _)
   | _ =>
     apply BlkEffect.same
     unfold stepBody
-    simp only [hk, getRt_eq]
+    simp only [hk]
     repeat' split
     all_goals (simp only [outState]; blk_same)
 
